@@ -108,7 +108,7 @@ def dispatch (op : String) (args obs : List String) : Outcome :=
   | "ET" => opET args obs
   | "ETD" => opETD args obs
   | "ETC" => opETC args obs
-  | "HRESET" | "PRIME" | "PK" | "CP" | "CB" | "PB" | "MP" | "UP" | "MM" | "GCH" =>
+  | "HRESET" | "PRIME" | "SCRIB" | "PK" | "CP" | "CB" | "PB" | "MP" | "UP" | "MM" | "GCH" =>
     match opHIST op args obs with
     | some d =>
       { corr := match d.corr with | none => .ok | some w => .bad w,
